@@ -155,16 +155,16 @@ func (l *List) LRange(key string, start, end int) (list [][]byte, err error) {
 		return
 	}
 
-	if start >= 0 && end < 0 {
-		end = size + end
-	}
-
-	if start < 0 && end > 0 {
+	// negative indexes count from the tail; a start before the head is the head
+	if start < 0 {
 		start = size + start
+		if start < 0 {
+			start = 0
+		}
 	}
 
-	if start < 0 && end < 0 {
-		start, end = size+start, size+end
+	if end < 0 {
+		end = size + end
 	}
 
 	if end >= size {
